@@ -49,8 +49,8 @@ Variable zero : Smp.
 Variable add : Smp -> Smp -> Smp.
 Variable LEN : nat.
 
-Definition buffer := list Smp.
-Definition bufs := list buffer.
+Notation buffer := (list Smp).
+Notation bufs := (list (list Smp)).
 
 (* ---- buffer.rs / slices ---- *)
 
